@@ -12,6 +12,7 @@ Alphabet   == {"[C]", "[=C]", "[O]", "[Branch1]", "[Ring1]", "."}
 MaxLen     == 3
 Input      == <<>>
 FirstSyms  == Alphabet
+SecondSyms == Alphabet
 AllowEmpty == TRUE
 (* encoder (EncodeCall): strict flag; Alphabet then holds SMILES token texts *)
 Strict == TRUE
